@@ -185,7 +185,7 @@ func (c *Ctx) Drive(done func() bool) simsync.End {
 		p := c.W.Panics[0]
 		c.Fail("no-panic", "panic:"+panicSig(p), "a task panicked: %s", p)
 	case simsync.EndDeadlock:
-		sites := c.W.LockWaitSites()
+		sites := c.W.DeadlockSites
 		c.Fail("no-deadlock", "deadlock:"+strings.Join(sites, "<->"), "lock cycle: %s", c.W.Deadlock)
 	case simsync.EndViolation:
 		v := c.W.Violation
@@ -196,6 +196,8 @@ func (c *Ctx) Drive(done func() bool) simsync.End {
 		c.Fail("invariant", sig, "%s", v)
 	case simsync.EndStepCap:
 		c.Inconclusive("step cap reached")
+	case simsync.EndTimeCap:
+		c.Inconclusive("virtual-time cap reached while tasks were still runnable")
 	case simsync.EndDiverged:
 		c.res.Outcome = "diverged"
 		c.res.Message = c.W.Diverged
